@@ -207,7 +207,13 @@ impl Property for C13 {
                         .with("cw20_ok", rc.ok)
                         .with("fees_pulled", pulled > 0)
                         .with("cw20_err_class", if rc.ok { "none" } else if rc.err.contains("transfer failure") { "transfer" } else { "other" })
-                        .with("native_err_class", if rn.err.contains("transfer failure") { "transfer" } else if rn.err.contains("sent funds") { "funds" } else { "other" }),
+                        .with("native_err_class", if rn.err.contains("transfer failure") { "transfer" } else if rn.err.contains("sent funds") { "funds" } else { "other" })
+                        // known finding F6b, recomputed: the native close counts the attached fees as vault balance, so it fails exactly
+                        // when the vault alone (before the call) is smaller than what the cw20 twin paid the trader
+                        .with("f6b_predicted", {
+                            let payout_c: u128 = rc.xfers.iter().filter(|x| x.from == ic.w.engine.as_str() && x.to == sender).map(|x| x.amount).sum();
+                            pulled > 0 && pre_n.bal[inn.w.idx_engine()] < payout_c
+                        }),
                     );
                 } else {
                     out.count("lockstep_checks");
